@@ -54,8 +54,16 @@ partial def opOfJson (op : Json) : Op :=
         deny := jstrs (jfield op "deny"), listTypesOk := jbool (jfield op "listTypesOk"),
         objId := jnat (jfield op "obj"), isMethod := jbool (jfield op "method"),
         methods := (jstrs (jfield op "methods")).map splitDot }
-  | "bind" => if jbool (jfield op "block") then .bindBlock (keyOfJson op) (valOfJson (jfield op "val"))
-              else .bind (keyOfJson op) (valOfJson (jfield op "val"))
+  | "bind" =>
+    let locJ := jfield op "loc"
+    if jisNull locJ then
+      if jbool (jfield op "block") then .bindBlock (keyOfJson op) (valOfJson (jfield op "val"))
+      else .bind (keyOfJson op) (valOfJson (jfield op "val"))
+    else
+      let fJ := jfield locJ "file"
+      let loc : Loc := { file := if jisNull fJ then none else some (jstr fJ), line := jnat (jfield locJ "line") }
+      if jbool (jfield op "block") then .bindBlockAt (keyOfJson op) (valOfJson (jfield op "val")) loc
+      else .bindAt (keyOfJson op) (valOfJson (jfield op "val")) loc
   | "query" => .query (keyOfJson op)
   | "call" => .call (splitDot (jstr (jfield op "sel"))) ((jarr (jfield op "enter")).map scopeArgOfJson)
       ((jarr (jfield op "args")).map valOfJson) (kvsOfJson (jfield op "kwargs"))
@@ -88,6 +96,11 @@ partial def outToJson : Out → Json
   | .scope s => ok (strs s)
   | .names l => ok (strs (sortStrs l))
   | .body outs => ok (Json.mkObj [("body", .arr (outs.map outToJson).toArray)])
+  | .locs l =>
+    let rows := l.map (fun x => (joinScope x.1.1 ++ "|" ++ joinDot x.1.2 ++ "." ++ x.2.1,
+      (x.2.2.file.getD "bindings string") ++ ":" ++ toString x.2.2.line))
+    let keys := sortStrs (rows.map (·.1))
+    ok (.arr (keys.filterMap (fun k => (AList.lookup k rows).map (fun v => Json.arr #[.str k, .str v]))).toArray)
   | .events l =>
     -- per target, in call order: [scope, params, extra, kw]
     let sels := sortStrs ((l.map (fun e => joinDot e.sel)).eraseDups)
